@@ -119,6 +119,14 @@ def _layout_task(task, out):
             if r.dtype != p._data.dtype or not torch.equal(r, p._data):
                 bad("differs_from_reference", f"pack_v2 differs from external/awq pack_intweight on digit probe {d}", c)
         digits.append(_nibbles(p._data, width))
+        # the same 4-bit matrix held in other integer dtypes (the library's own v1 unpack() returns int8) packs identically
+        for idt in (torch.int8, torch.int16, torch.int32):
+            try:
+                pi = pk(M.to(idt))
+                if pi._data.dtype != p._data.dtype or not torch.equal(pi._data, p._data) or not torch.equal(pi.unpack().to(torch.uint8), M):
+                    bad("input_dtype_dependent", f"packing the same matrix held as {idt} gives a different payload / unpack (digit probe {d})", c)
+            except Exception as e:  # noqa
+                bad("input_dtype_dependent", f"packing the matrix held as {idt} raised {type(e).__name__}: {e}", c)
         # non-contiguous source (same values through a transposed buffer)
         Mt = M.t().contiguous().t()
         p2 = pk(Mt)
